@@ -259,6 +259,49 @@ class C11:
                 if before != after:
                     self._path = threading.local()
                     self.report_diff(rec, "NOT-RESTORED", before, after, {"AUTO_CD": True}, lambda: case, KEYS)
+            elif case["program"] == "detype-cache-reset-during-return":
+                # directed schedule (regression witness of fix 1171163): thread A is delayed at the first `return` of
+                # Env.detype (the cached answer) while thread B keeps filling and invalidating the shared cache
+                from vlib.sched import Injector, find_line
+
+                inj = Injector(0, p=0.0)
+                inj.target(self.Env.detype)
+                site = find_line(self.Env.detype, "return ")
+                inj.forced[site] = 0.01
+                stop = threading.Event()
+                got = []
+
+                def reader():
+                    for _ in range(60):
+                        try:
+                            got.append(type(env.detype()).__name__)
+                        except Exception as e:  # noqa
+                            got.append("raised:" + type(e).__name__)
+
+                def churn():
+                    i = 0
+                    while not stop.is_set():
+                        i += 1
+                        env["SETSTR"] = "v%d" % (i % 2)  # invalidates the cache
+                        time.sleep(0.002)
+
+                import time
+
+                inj.start()
+                try:
+                    tb = threading.Thread(target=churn, name="verif-churn")
+                    tb.start()
+                    ta = threading.Thread(target=reader, name="verif-reader")
+                    ta.start()
+                    ta.join(60)
+                    stop.set()
+                    tb.join(10)
+                finally:
+                    inj.stop()
+                rec.count("directed_detype_calls_delayed_at_return", inj.stats()["delays_injected"])
+                bad = sorted({g for g in got if g != "dict"})
+                if bad:
+                    rec.violation("CROSS-THREAD/detype-returned-None", case, {"returned": bad, "calls": len(got), "delayed_at": site})
             else:
                 with env.swap(overlay={"SETSTR": "from-overlay"}):
                     with env.swap(SETSTR="inner"):
@@ -340,9 +383,9 @@ class C11:
         if sig:
             rec.setadd("interleaving_signatures", sig)
         for i, tn, msg in errors:
-            if tn == "TypeError" and "'NoneType' object is not iterable" in msg:
-                # detype() returned the cache another thread had just reset to None
-                rec.violation("CROSS-THREAD/detype-cache-shared-between-threads", case, {"thread": i, "msg": msg})
+            if (tn == "TypeError" and "'NoneType' object is not iterable" in msg) or (tn == "AttributeError" and "'NoneType' object has no attribute" in msg):
+                # detype() returned the cache another thread had just reset to None (check-then-return on the shared attribute)
+                rec.violation("CROSS-THREAD/detype-returned-None", case, {"thread": i, "msg": msg})
             else:
                 rec.violation("EXCEPTION-IN-THREAD/" + tn, case, {"thread": i, "msg": msg})
 
@@ -401,7 +444,7 @@ class C11:
     def run_shard(self, sh, rec):
         self._setup()
         if sh["index"] == 0:
-            for prog in ("swap-default-valued", "swap-inside-overlay"):
+            for prog in ("swap-default-valued", "swap-inside-overlay", "detype-cache-reset-during-return"):
                 self.run_case({"kind": "directed", "program": prog}, rec)
         for i in range(sh["n"]):
             case = {"kind": sh["kind"], "seed": sh["seed"], "rseed": f"{sh['seed']}/C11/{sh['index']}/{i}"}
